@@ -3,6 +3,7 @@ import Spec
 import Gen
 import Proofs.Client
 import Proofs.SM
+import Proofs.ConnWrite
 /-!
   C13 — the watchdog detects a silent peer and spares a responsive one.
   `Model.Client.WD`: the watchdog goroutine (`select {disconnect, WatchdogInterval}`), `dwr()`
@@ -139,8 +140,25 @@ theorem C13_dwa (cfg : Settings) (req : Header) :
       newAVP C.originHost 64 0 (.str T.ident cfg.originHost), newAVP C.originRealm 64 0 (.str T.ident cfg.originRealm)] := by
   simp [dwa, mkMsg, answerHdr, Msg.addAVP]
 
+/-- Several connections of one `sm.Client` share the state machine's mux and so its DWA handler.
+    With the handler finding the watchdog in the context of the connection the answer arrived on
+    (`Gen.handshakeAnswerHandlers`), every connection is credited exactly the answers that arrived
+    on it - for every interleaving of handshakes and answers on any number of connections; the
+    single-connection theorems above therefore apply to each of them. -/
+theorem C13_answers_by_connection (es : List ShareEv) (s : ShareState) (k : Nat) (hk : k < s.acks.length) :
+    (s.run true es).acks.getD k 0 = s.acks.getD k 0 + answersOn k es :=
+  (share_byConn es s k hk).1
+
+/-- ... whereas handlers bound to the channels of the latest handshake (the source before the
+    repair 5fd1923) credit the first connection's answer to the second: a peer that answered is
+    taken for silent -/
+theorem C13_latest_handshake_counterexample :
+    (({} : ShareState).run false [.handshake, .handshake, .answer 0]).acks = [0, 1] := by decide
+
 /-- structural facts regenerated from client.go / dwa.go -/
-theorem C13_gen : Gen.capDwac = 1 ∧ Gen.dwrDrainsFirst = true ∧ Gen.dwaSendNonBlocking = true ∧
+theorem C13_gen : Gen.handshakeAnswerHandlers =
+      ["\"CEA\"=handleCEA(cli.Handler,nil)", "\"DWA\"=handshakeOK(handleDWA(cli.Handler,nil))"] ∧
+    Gen.capDwac = 1 ∧ Gen.dwrDrainsFirst = true ∧ Gen.dwaSendNonBlocking = true ∧
     Gen.dwrMakeDWR = ([], ["cli.makeDWR(osid)"]) ∧ Gen.dwrWrites = ["m.WriteToStream(c,cli.WatchdogStream)"] ∧
     Gen.dwrCloses = (0, 1) ∧ Gen.dwrLoopCond = "(i<((int(cli.MaxRetransmits)+1)))" := by decide
 
